@@ -19,7 +19,7 @@ import z3
 
 from pyvc.api import *          # noqa
 from pyvc.check import Result, discharge
-from pyvc.engine import explore, EnvFunc, Unsupported, ExcVal, PyRaise
+from pyvc.engine import explore, EnvFunc, Unsupported, ExcVal, PyRaise, raise_py
 from pyvc import mock
 from pyvc.mock import Recorder, calls
 from pyvc.loops import SymSeq
@@ -366,7 +366,7 @@ def _subterms(t, seen=None):
 def tasks(tier):
     ts = [('contracts.c18', 'getstate_setstate', ()), ('contracts.c18', 'fanout_init', ()),
           ('contracts.c18', 'con_reconnects', ()), ('contracts.c18', 'close_idempotent', ()),
-          ('contracts.c18', 'format_pins', ())]
+          ('contracts.c18', 'format_pins', ()), ('contracts.c18', 'settings_merge', ())]
     from contracts.disk_common import KEY_CLASSES
     ts += [('contracts.c13', 'hash_spec', (c,)) for c in KEY_CLASSES]
     return ts
@@ -392,3 +392,107 @@ def meta(results, tier):
                             'the recorded schema (contracts/released_schema.txt) is the released on-disk format',
                             '_con pragma re-application checked on a representative two-row Settings result'],
             'explanation': 'state tuples, shard construction, reconnect logic and released-format pins'}
+
+
+# ------------------------------------------------------------------ Cache.__init__: settings merge
+def settings_merge():
+    """Stored settings override defaults, constructor arguments override stored settings, metadata
+    counters are never overwritten, every setting is written back and applied (reset), the disk_*
+    settings reach the Disk constructor.  Cache.__init__ is executed from /repo; its SQL goes to a
+    recording Settings store, Cache.reset is recorded (its contract is assumed elsewhere too)."""
+    ctx = cctx()
+    core = ctx.program.modules['diskcache.core'].globals
+    DEFAULTS = dict(core['DEFAULT_SETTINGS'])
+    META = dict(core['METADATA'])
+    out = []
+    arg_sets = [()] + [(k,) for k in sorted(DEFAULTS)] + [('size_limit', 'cull_limit', 'disk_min_file_size')]
+    for stored_present in (False, True):
+        for given in arg_sets:
+            def run(st, stored_present=stored_present, given=given):
+                it = ctx.interp(st)
+                stored = {k: Opaque('other', st.fresh('stored_' + k, OTHER)) for k in DEFAULTS} if stored_present else None
+                if stored is not None:
+                    stored['eviction_policy'] = 'least-recently-used'
+                    stored['tag_index'] = 1
+                    stored.update({k: Opaque('other', st.fresh('meta_' + k, OTHER)) for k in META})
+                args = {k: Opaque('other', st.fresh('arg_' + k, OTHER)) for k in given}
+                if 'eviction_policy' in args:
+                    args['eviction_policy'] = 'least-frequently-used'
+                if 'tag_index' in args:
+                    args['tag_index'] = 0
+
+                def sql(it2, a, k):
+                    stmt = ' '.join(a[0].split())
+                    params = a[1] if len(a) > 1 else ()
+                    it2.st.effect('SQLTEXT', stmt=stmt, params=params)
+                    if stmt.startswith('SELECT key, value FROM Settings'):
+                        if stored is None:
+                            raise_py('sqlite3.OperationalError', 'no such table: Settings')
+                        return Obj('Cursor', {'rows': list(stored.items())})
+                    if stmt.startswith('PRAGMA page_size'):
+                        return Obj('Cursor', {'rows': [(4096,)]})
+                    return Obj('Cursor', {'rows': []})
+                sqlfn = EnvFunc('sql', sql)
+                ctx.env.obj_methods['Cursor'] = {'fetchall': lambda it2, o, a, k: o.fields['rows']}
+                ctx.hooks['diskcache.core.Cache._sql'] = lambda it2, f, a, k: sqlfn
+                ctx.hooks['diskcache.core.Cache._sql_retry'] = lambda it2, f, a, k: sqlfn
+
+                def reset(it2, f, a, k):
+                    b = it2.bind_args(f, a, k)
+                    it2.st.effect('RESET', key=b['key'], value=b['value'], update=b['update'])
+                    if b['value'] is not core['ENOVAL']:
+                        b['self'].fields[b['key']] = b['value']
+                    else:
+                        b['self'].fields[b['key']] = Opaque('other', it2.st.fresh('reloaded_' + str(b['key']), OTHER))
+                    return b['value']
+                ctx.hooks['diskcache.core.Cache.reset'] = reset
+                ctx.hooks['diskcache.core.Cache.close'] = lambda it2, f, a, k: it2.st.effect('CLOSE')
+                ctx.env.modules['os.path']['isdir'] = EnvFunc('os.path.isdir', lambda it2, a, k: True)
+                obj = ctx.new_obj('diskcache.core.Cache', {})
+                st.ghost.update(stored=stored, args=args)
+                try:
+                    it.call(ctx.func('diskcache.core.Cache.__init__'),
+                            [obj, st.fresh_sv('dir', 'str'), st.fresh_sv('timeout', 'real'), ctx.cls('diskcache.core.Disk')], dict(args))
+                finally:
+                    for h in ('_sql', '_sql_retry', 'reset', 'close'):
+                        ctx.hooks.pop('diskcache.core.Cache.' + h, None)
+                return obj
+            for n, p in enumerate(explore(run)):
+                base = 'C18.init.settings_merge[stored=%s,args=%s]#%d' % (stored_present, ','.join(given) or '-', n)
+                if p.kind != 'return':
+                    out.append(R(base, False, 'Cache.__init__', 'raises %r' % (p.value,), path=p.decisions))
+                    continue
+                st = p.state
+                stored, args = st.ghost['stored'], st.ghost['args']
+                tr = st.trace
+                writes = [e[1] for e in tr if e[0] == 'SQLTEXT' and e[1]['stmt'].startswith('INSERT OR REPLACE INTO Settings')]
+                ignores = [e[1] for e in tr if e[0] == 'SQLTEXT' and e[1]['stmt'].startswith('INSERT OR IGNORE INTO Settings')]
+                resets = [e[1] for e in tr if e[0] == 'RESET' and e[1]['update'] is True and e[1]['value'] is not core['ENOVAL']]
+                prob = None
+                written = {}
+                for w_ in writes:
+                    k_, v_ = w_['params']
+                    written[k_] = v_
+                applied = {r['key']: r['value'] for r in resets if r['key'] in DEFAULTS}
+                for k in DEFAULTS:
+                    want = args[k] if k in args else (stored[k] if stored is not None else DEFAULTS[k])
+                    for nm, got in (('written back', written.get(k, 'ABSENT')), ('applied', applied.get(k, 'ABSENT'))):
+                        same = got is want or (not isinstance(want, Opaque) and not isinstance(got, Opaque) and got == want and type(got) is type(want))
+                        if not same:
+                            prob = prob or 'setting %s %s as %r, expected %r' % (k, nm, got, want)
+                for k in META:
+                    if k in written:
+                        prob = prob or 'metadata key %s is overwritten' % k
+                    if not any(i['params'][0] == k and i['params'][1] == META[k] for i in ignores):
+                        prob = prob or 'metadata key %s is not initialised with INSERT OR IGNORE' % k
+                disk = p.value.fields.get('_disk')
+                if not (isinstance(disk, Obj) and disk.cls is ctx.cls('diskcache.core.Disk')):
+                    prob = prob or 'no Disk instance'
+                else:
+                    for k, attr in (('disk_min_file_size', 'min_file_size'), ('disk_pickle_protocol', 'pickle_protocol')):
+                        want = args[k] if k in args else (stored[k] if stored is not None else DEFAULTS[k])
+                        got = disk.fields.get(attr)
+                        if not (got is want or (not isinstance(want, Opaque) and got == want)):
+                            prob = prob or 'Disk.%s is %r, expected %r' % (attr, got, want)
+                out.append(R(base, prob is None, 'Cache.__init__', prob, path=p.decisions))
+    return out
